@@ -2386,17 +2386,19 @@ def same_name_families():
         kd = lookup_kind(f"SnD{i}")
         text += (f"{cfg}pub mod sn_inv_v{i} {{\n    use super::*;\n    #[entrait(XferIImpl, delegate_by = DelegateXferI)]\n    pub trait XferI {{\n        fn xfer_i(&self, {sig}) -> u64;\n    }}\n"
                  f"    #[entrait(XferDImpl, delegate_by = ref)]\n    pub trait XferD {{\n        fn xfer_d(&self, {sig}) -> u64;\n    }}\n"
-                 "    pub struct TA(pub u64);\n    pub struct TB(pub u64);\n")
+                 )
+        # the targets live OUTSIDE the droppable module: the application's fields are of these types
+        text = text.replace(f"{cfg}pub mod sn_inv_v{i} {{", f"pub struct SnTA{i}(pub u64);\npub struct SnTB{i}(pub u64);\n{cfg}pub mod sn_inv_v{i} {{")
         for which, ab in enumerate("AB"):
-            text += (f"    #[entrait]\n    impl XferIImpl for T{ab} {{\n        pub fn xfer_i(deps: &impl F0, {sig}) -> u64 {{\n" + body(iv.fn_ids[which], "sim::addr(deps)", pm, False, ind="            ") + "        }\n    }\n"
-                     f"    #[entrait(ref)]\n    impl XferDImpl for T{ab} {{\n        pub fn xfer_d(deps: &impl F0, {sig}) -> u64 {{\n" + body(dv.fn_ids[which], "sim::addr(deps)", pm, False, ind="            ") + "        }\n    }\n"
-                     f"    impl DelegateXferI<Self> for App<{which}> {{\n        type Target = T{ab};\n    }}\n")
+            text += (f"    #[entrait]\n    impl XferIImpl for SnT{ab}{i} {{\n        pub fn xfer_i(deps: &impl F0, {sig}) -> u64 {{\n" + body(iv.fn_ids[which], "sim::addr(deps)", pm, False, ind="            ") + "        }\n    }\n"
+                     f"    #[entrait(ref)]\n    impl XferDImpl for SnT{ab}{i} {{\n        pub fn xfer_d(deps: &impl F0, {sig}) -> u64 {{\n" + body(dv.fn_ids[which], "sim::addr(deps)", pm, False, ind="            ") + "        }\n    }\n"
+                     f"    impl DelegateXferI<Self> for App<{which}> {{\n        type Target = SnT{ab}{i};\n    }}\n")
             dfield = f"dyn_snd_v{i}_{ab.lower()}"
-            APP_FIELDS_TYPED.append((dfield, f"sn_inv_v{i}::T{ab}"))
+            APP_FIELDS_TYPED.append((dfield, f"SnT{ab}{i}"))
             text += (f"    impl AsRef<dyn XferDImpl<Self>> for App<{which}> {{\n        fn as_ref(&self) -> &(dyn XferDImpl<Self> + 'static) {{\n            sim::lookup({kd});\n            &self.{dfield}\n        }}\n    }}\n")
         text += "}\n"
-        iv.trait_call, iv.direct_call, iv.recv_expr = f"sn_inv_v{i}::XferI::xfer_i(app, {{args}})", f"sn_inv_v{i}::T{{AB}}::xfer_i(app, {{args}})", "sim::addr(app)"
-        dv.trait_call, dv.direct_call, dv.recv_expr = f"sn_inv_v{i}::XferD::xfer_d(app, {{args}})", f"sn_inv_v{i}::T{{AB}}::xfer_d(app, {{args}})", "sim::addr(app)"
+        iv.trait_call, iv.direct_call, iv.recv_expr = f"sn_inv_v{i}::XferI::xfer_i(app, {{args}})", f"SnT{{AB}}{i}::xfer_i(app, {{args}})", "sim::addr(app)"
+        dv.trait_call, dv.direct_call, dv.recv_expr = f"sn_inv_v{i}::XferD::xfer_d(app, {{args}})", f"SnT{{AB}}{i}::xfer_d(app, {{args}})", "sim::addr(app)"
         dv.lookups, dv.lookup_kind = 1, kd
     corpus.append(text + cmark(0))
 
